@@ -640,3 +640,34 @@ def register_write_gfa_body(reg):
                                                                "f[CNT[t]][1] == sorted_set_of_nodes[t]))",
         },
     ))
+
+
+# ---- graph_from_comp (used by order_gfa on each component): the sub-graph has exactly the component's nodes with their adjacency, and is
+# well-formed when the component is closed under adjacency (which find_component proves of the sets it returns) ------------------------------
+def register_graph_from_comp(reg):
+    GFAT.ctor = []
+    GFAT.defaults = {
+        "nodes": lambda eng: Val(GFAT.fields["nodes"].empty(), GFAT.fields["nodes"]),
+        "edge_tags": lambda eng: Val(GFAT.fields["edge_tags"].empty(), GFAT.fields["edge_tags"]),
+        "contig_to_nodes": lambda eng: Val(GFAT.fields["contig_to_nodes"].empty(), GFAT.fields["contig_to_nodes"]),
+        "contigs": lambda eng: Val(GFAT.fields["contigs"].empty(), GFAT.fields["contigs"]),
+    }
+    reg.add(Contract(
+        file=GFA, func="GFA.graph_from_comp", params=dict(self=GFAT, component_nodes=SetT(STR)), returns=GFAT, pure=True,
+        types=dict(STR=STR, INT=INT, GFA=GFAT, Node=Node), locals=dict(new_graph=GFAT, new_node=Node),
+        requires=["forall(STR, lambda a: implies(a in component_nodes, a in self.nodes))"] + wf("self") + [
+            # the component is closed under adjacency (postcondition of find_component / all_components)
+            "forall([STR, STR, INT, INT], lambda a, b, sb, ov: implies(a in component_nodes and ((b, sb, ov) in self.nodes[a].start or (b, sb, ov) in self.nodes[a].end), b in component_nodes))"],
+        loops={1: Loop(index="it1", seq_name="cseq", fingerprint="for n in component_nodes", invariant={
+            "only-component-nodes": "forall(STR, lambda a: implies(a in new_graph.nodes, a in component_nodes))",
+            "nodes-so-far": "forall(lambda t: implies(0 <= t < it1, cseq[t] in new_graph.nodes))",
+            "adjacency-copied": "forall(STR, lambda a: implies(a in new_graph.nodes, new_graph.nodes[a].start == self.nodes[a].start and "
+                                "new_graph.nodes[a].end == self.nodes[a].end and new_graph.nodes[a].id == a and same(new_graph.nodes[a].tags, self.nodes[a].tags)))",
+        })},
+        ensures=dict([
+            ("exactly-the-component", "forall(STR, lambda a: (a in result.nodes) == (a in component_nodes))"),
+            ("adjacency-and-tags-copied", "forall(STR, lambda a: implies(a in result.nodes, result.nodes[a].start == self.nodes[a].start and "
+                                          "result.nodes[a].end == self.nodes[a].end and result.nodes[a].id == a and same(result.nodes[a].tags, self.nodes[a].tags)))"),
+        ] + [(k, dict(expr=v, **{"from": ["exactly-the-component", "adjacency-and-tags-copied"]})) for k, v in _wfd("result", "").items()]),
+        notes="the new nodes SHARE their start / end sets and tag dictionaries with the original graph's nodes (aliasing, not modelled: the copy is read-only in order_gfa)",
+    ))
